@@ -195,6 +195,19 @@ def h_formatters(sx):
                              detail=lambda m, el=el, mo=mo: dict(det(m), scenario=el["name"], json=el.get("status"), model=mo["status"]))
                     sx.check([s["name"] for s in el["steps"]] == [n_ for n_, _ in mo["steps"]], "C15.json-steps==model-steps",
                              detail=lambda m, el=el, mo=mo: dict(det(m), scenario=el["name"], json=[s["name"] for s in el["steps"]], model=mo["steps"]))
+                    # tables and doc-strings are those of the model
+                    mobj = [e_ for e_ in w.scenario_elems() if e_.obj is not None and e_.obj.name == el["name"]]
+                    if mobj:
+                        for js, stp in zip(el["steps"], w.step_objs(mobj[0])):
+                            if stp.table is not None:
+                                sx.check(js.get("table") == {"headings": list(stp.table.headings), "rows": [list(r) for r in stp.table.rows]},
+                                         "C15.json-step-table==model", detail=lambda m, js=js: dict(det(m), step=js["name"], json=js.get("table")))
+                            else:
+                                sx.check("table" not in js, "C15.json-step-table==model", detail=lambda m, js=js: dict(det(m), step=js["name"], json=js.get("table")))
+                            if stp.text:
+                                jt = js.get("text")
+                                jt = "\n".join(jt) if isinstance(jt, list) else jt
+                                sx.check(jt == str(stp.text), "C15.json-doc-string==model", detail=lambda m, js=js, jt=jt: dict(det(m), step=js["name"], json=jt))
                     res = dict(next((r for s_, r in processed if s_ == el["name"]), []))
                     for js, (stepname, mstatus) in zip(el["steps"], mo["steps"]):
                         if "result" in js:
@@ -252,7 +265,7 @@ def jobs(tier, seed):
     js = []
     D = {"*": [0, 2]}
     shapes = {
-        "bg-rule": ([F([S(2), R([S(1)], bg=1)], bg=1)], {"out_dom": D, "dry_run": "sym"}),
+        "bg-rule": ([F([S(2, rich=True), R([S(1, rich=True)], bg=1)], bg=1)], {"out_dom": D, "dry_run": "sym"}),
         "outline": ([F([O(1, [(2, ["e"])], tags=["o"]), S(1)], tags=["f"])], {"out_dom": D, "stop": "sym"}),
         "2feat-select": ([F([S(1), S(1)]), F([S(1)])], {"out_dom": {"*": [0, 1]}, "select": True}),
         "feature-cleanup": ([F([S(1)]), F([S(1)])], {"out_dom": {"*": [0, 1]}}),
